@@ -638,3 +638,20 @@ Lemma ex_obs_rejected :
   check_observed ex_cfg
     [ {| o_tid := 0; o_fld := 0; o_cls := 0; o_parts := [] |} ] = false.
 Proof. vm_compute. auto. Qed.
+
+(* ------------------------------------------------------------------ finding FG1 *)
+(* witness: raw = two occurrences (10 bytes), re-encoding 7 bytes; the reader publishes between the passes *)
+Lemma marshal_concurrent_reader_refuted :
+  exists raw enc s a, passes_possible s a = true /\ marshal_size_check raw enc s a = false.
+Proof. exists 10, 7, true, false. split; reflexivity. Qed.
+
+Lemma marshal_concurrent_reader_except_FG1 raw enc s a :
+  excl_FG1 raw enc = false -> marshal_size_check raw enc s a = true.
+Proof.
+  unfold excl_FG1, marshal_size_check, pass_len. intros H.
+  apply negb_false_iff, Nat.eqb_eq in H. subst. destruct s, a; apply Nat.eqb_refl.
+Qed.
+
+(* without a concurrent reader both passes see the same state: the check always passes *)
+Lemma marshal_sequential_ok raw enc s : marshal_size_check raw enc s s = true.
+Proof. unfold marshal_size_check. apply Nat.eqb_refl. Qed.
